@@ -129,6 +129,16 @@ def catalogue(chk, deb, btcc, tap):
     argsets = ["", "0x", "1", "-1", "x", "0x00", "0x" + "00" * 32, "0x" + "ff" * 33, "0x" + "ab" * 64, "[0x01 0x02]", "[0x" + "11" * 32 + " 0x" + "22" * 32 + "]",
                "[0x" + "11" * 32 + " 0x" + "22" * 33 + " 0x" + "33" * 64 + "]", "[0x" + "11" * 64 + " 0x" + "22" * 33 + " 0x" + "33" * 70 + "]", "bcrt1", "bcrt1qqqqqqq", "bc1" + "q" * 6,
                "1111", "1A1zP1eP5QGefi2DMPTfTL5SLmv7DivfNb", "z" * 60, "0x" + "76a914" + "11" * 20 + "88ac", "0x" + "11" * 25, "9" * 30, "[OP_1 OP_2]", "[]", "0x0102030405"]
+    # well-formed public keys (the generator point), so that the code behind the size checks is reached
+    GK = "79be667ef9dcbbac55a06295ce870b07029bfcdb2dce28d959f2815b16f81798"
+    GY = "483ada7726a3c4655da4fbfc0e1108a8fd17b448a68554199c47d08ffb10d4b8"
+    keyed = ["[0x" + "11" * 32 + " 0x02" + GK + " 0x3006020101020101]", "[0x" + "11" * 32 + " 0x04" + GK + GY + " 0x" + "33" * 64 + "]", "[0x02" + GK + " 0x03" + GK + "]",
+             "[0x" + "00" * 32 + " 0x02" + GK + "]", "[0x" + "ff" * 32 + " 0x02" + GK + "]", "0x02" + GK, "0x04" + GK + GY, "[0x" + "11" * 32 + " 0x" + GK + " 0x" + "33" * 64 + "]",
+             "[0x02" + GK + " 0x02" + GK + "]"]
+    for fn in ("verify_sig", "combine_pubkeys", "tweak_pubkey", "pubkey_to_xpubkey", "taproot_tweak_pubkey"):
+        for a in keyed:
+            cli("inline-fn-keys", "btcc", ["%s(%s)" % (fn, a)])
+            repl("repl-tf-keys", ["0x51"], ["tf " + fn.replace("_", "-") + " " + a.strip("[]"), "tf verify-sig-compact " + a.strip("[]")])
     for fn in fns:
         for a in (argsets if not quick else argsets[::2] + argsets[1:4]):
             cli("inline-fn", "btcc", ["%s(%s)" % (fn, a)])
